@@ -1,0 +1,4 @@
+/* -*- c -*- */
+#include "version.h"
+
+const char echse_version_string[] = "0.2.2";
